@@ -365,7 +365,7 @@ def run(ctx):
     allpf = [x for x in range(16) if (x & 12) != 12]      # skip_default together with force_default is contradictory
     ndoc = 400 if T else 90
     for k in range(ndoc):
-        root = rng.choice(['Root'] * 6 + ['Leaf', 'Other', 'Sub', 'Rec', 'Pt', 'Fix', 'Fix', 'Nums', 'Nums', 'Node'])
+        root = rng.choice(['Root'] * 6 + ['Leaf', 'Other', 'Sub', 'Rec', 'Pt', 'Fix', 'Fix', 'Nums', 'Nums', 'Node', 'DepFirst', 'DepMid', 'DepLast', 'DepOnly'])
         utf8 = (k % 3 != 0)
         v, text = make(root, utf8, rng.choice([1, 2, 3]))
         pfs = allpf if k < (12 if T else 4) else [0, 1, 2, 4, 8] + rng.sample(allpf, 2)
@@ -440,6 +440,13 @@ def run(ctx):
             root, text = chain(kind, d)
             for pf, indent in ((0, 0), (1, 2)):
                 cases.append(('deep-chain:' + kind, root, None, text, pf, indent, True))
+    # tables with deprecated union fields around live unions: every live union / union vector present, values compared through dump and json.loads
+    for k in range(24):
+        root_ = ['DepFirst', 'DepMid', 'DepLast'][k % 3]
+        g = U.Gen(rng, max_depth=2, text='utf8')
+        v = g.table(root_, 0, p_present=1.0)
+        st = U.Style(rng, strict=True); st.union_order = ['type_first', 'value_first', 'split'][(k // 3) % 3]; st.omit_struct_fields = False
+        cases.append(('deprecated-union', root_, v, U.render_root(root_, v, st), rng.choice([0, 1, 2]), 0, True))
     # a bit_flags enum that defines every bit of its base type: value 0 (no flag), all bits, in a field and in a vector
     for body, v in ((b'{"full":0}', {'full': 0}), (b'{"full":255}', {'full': 255}), (b'{"vfull":[0,1,255,0]}', {'vfull': [0, 1, 255, 0]}), (b'{"vfull":[0]}', {'vfull': [0]}),
                     (b'{"full":128,"vfull":[3,0,0]}', {'full': 128, 'vfull': [3, 0, 0]}), (b'{}', {})):
